@@ -738,7 +738,7 @@ impl Check for C06 {
                 }
             }
             if idx % 20 == 0 {
-                r.sample(json!({"call_path": PATHS[idx].0, "variants": VARIANTS}));
+                r.sample(json!({"call_path": PATHS[idx].0, "variants": VARIANTS, "loop_variant_source": path_program(idx, "loop", 0), "rec_variant_source": path_program(idx, "rec", 0)}));
             }
         } else if idx < np + ne {
             judge_endless(&mut r, idx - np);
